@@ -110,4 +110,24 @@ example : TlvSrc.schemaDecodeSrc tlvProbeSchema (rawEncode [(2, beEncode 8 7), (
     TlvSrc.schemaDecodeSrc tlvProbeSchema (rawEncode [(3, beEncode 4 1), (6, [0, 1])]) = .error .InvalidValue ∧
     (TlvSrc.schemaDecodeSrc tlvProbeSchema (rawEncode [(2, beEncode 8 7), (6, [0, 1])])).isOk = true := by decide
 
+/-- the TLV WRITER of the current source (`_encode_tlv!` required / option arms, `_encode_tlv_stream!` declaration order) is
+    `encodeTlvs`, and its debug-build order check passes exactly on strictly increasing declared types -/
+theorem tlv_writer_is_source :
+    (∀ tlvs vals, TlvSrc.encodeTlvStreamSrc tlvs vals = encodeTlvs tlvs vals) ∧
+    (∀ tys, TlvSrc.encOrderCheck none tys = strictInc tys) :=
+  ⟨TlvSrc.encodeTlvStreamSrc_eq, fun tys => TlvSrc.encOrderCheck_eq none tys⟩
+example : TlvSrc.encodeTlvStreamSrc tlvProbeSchema.tlvs [some (.nat 7), none, some (.nat 1), none] =
+    [2, 8, 0, 0, 0, 0, 0, 0, 0, 7, 6, 2, 0, 1] := by decide
+
+/-- round trip of the MACRO pair, independent of any message: for every field list with strictly increasing types and every value
+    list it can hold (option present or absent, required present), the translated `decode_tlv_stream!` reads back exactly what the
+    translated `encode_tlv_stream!` wrote -/
+theorem src_tlv_macro_roundtrip (tlvs : List TlvField) (vals : List (Option Val))
+    (hs : strictInc (tlvs.map (·.typ)) = true) (hwf : ∀ f ∈ tlvs, f.ty.wf = true ∧ f.typ < 2 ^ 64)
+    (hv : validTlvs tlvs vals = true) :
+    (TlvSrc.decodeTlvStreamSrc tlvs (TlvSrc.encodeTlvStreamSrc tlvs vals)).map (fun acc => tlvs.map fun f => acc.lookup f.typ) = .ok vals := by
+  rw [tlv_writer_is_source.1, tlv_loop_is_source.1]; exact tlv_stream_roundtrip tlvs vals hs hwf hv
+example : (TlvSrc.decodeTlvStreamSrc tlvProbeSchema.tlvs (TlvSrc.encodeTlvStreamSrc tlvProbeSchema.tlvs [some (.nat 7), some (.nat 3), some (.nat 1), none])).map
+    (fun acc => tlvProbeSchema.tlvs.map fun f => acc.lookup f.typ) = .ok [some (.nat 7), some (.nat 3), some (.nat 1), none] := by decide
+
 end Ldk.C13
